@@ -256,6 +256,61 @@ theorem handOver_nil (l : TermList) : handOver [] l = .ok l := rfl
 theorem handOver_cons (k : String) (v : Tree) (r : List (String × Tree)) (l : TermList) :
     handOver ((k, v) :: r) l = l.setattr k v >>= handOver r := rfl
 
+/-! ## compiled tensor terms -/
+
+/-- built by a constructor -/
+def Constructed (a : Atom) : Prop := ∃ k kw, construct k kw = .ok a
+
+theorem constructed_roundTrips (a : Atom) (h : Constructed a) : RoundTrips a := by
+  obtain ⟨k, kw, hk⟩ := h
+  exact atomFromInfo_info .spline k kw a hk
+
+theorem compileAtoms_info (data : List FeatData) (ms cs : List Atom) (hc : ∀ m ∈ ms, Constructed m)
+    (h : compileAtoms data ms = .ok cs) : cs.map Atom.info = ms.map Atom.info := by
+  induction ms generalizing cs with
+  | nil => simp [compileAtoms] at h; subst h; rfl
+  | cons a r ih =>
+    simp only [compileAtoms, bind, Except.bind] at h
+    cases h1 : compileAtom data a with
+    | error e => simp [h1] at h
+    | ok c =>
+      simp only [h1] at h
+      cases h2 : compileAtoms data r with
+      | error e => simp [h2] at h
+      | ok cr =>
+        simp only [h2, Except.ok.injEq] at h
+        subst h
+        obtain ⟨k, kw, hk⟩ := hc a List.mem_cons_self
+        have hkind := construct_kind k kw a hk
+        have e1 := (compileAtom_info data a c (by
+          intro hf
+          rw [hkind] at hf; subst hf
+          exact construct_factor_exclude kw a hk) h1).1
+        simp [e1, ih cr (fun m hm => hc m (List.mem_cons_of_mem _ hm)) h2]
+
+/-- tensor terms: the term rebuilt from the info of the compiled term and compiled on the same data is the
+compiled term -/
+theorem tensor_rebuild_compiled (args : List TeArg) (by_ : Val) (kw : List (String × Tree)) (d : Dict)
+    (ms : List Atom) (data : List FeatData) (c : Term)
+    (h : mkTensor args by_ (vbool false) kw = .ok (.tensor d ms)) (hm : ∀ m ∈ ms, Constructed m)
+    (hc : compileTerm data (.tensor d ms) = .ok c) :
+    ∃ t', Term.fromInfo c.info = .ok t' ∧ compileTerm data t' = .ok c := by
+  refine ⟨.tensor d ms, ?_, hc⟩
+  simp only [compileTerm, bind, Except.bind] at hc
+  cases h1 : compileAtoms data ms with
+  | error e => simp [h1] at hc
+  | ok cs =>
+    simp only [h1] at hc
+    cases h2 : checkBy data ((dget d "by").getD vnone) with
+    | error e => simp [h2] at hc
+    | ok u =>
+      simp only [h2, Except.ok.injEq] at hc
+      subst hc
+      have e := compileAtoms_info data ms cs hm h1
+      have : (Term.tensor d cs).info = (Term.tensor d ms).info := by simp [Term.info, e]
+      rw [this]
+      exact tensor_roundtrip args by_ kw d ms h (fun m hmm => constructed_roundTrips m (hm m hmm))
+
 /-- `e` succeeded with the value `x` (decidable form, for the concrete examples) -/
 def okWith {α : Type} [DecidableEq α] (e : Except Err α) (x : α) : Bool :=
   match e with
